@@ -406,8 +406,10 @@ func genCaseC14(t *rapid.T) *c14Case {
 				bad = fmt.Sprintf(bad, n, n)
 			}
 		case "schema-block-then-failure":
+			// a complete schema block, and further down what makes the document fail: an undefined
+			// reference, or text that does not even parse (the reader has seen the block by then)
 			valid = fmt.Sprintf("schema { query: %s }\n", some) + valid
-			bad = fmt.Sprintf("type Zq%d { q: Nope%d }", n, n)
+			bad = rapid.SampledFrom([]string{fmt.Sprintf("type Zq%d { q: Nope%d }", n, n), fmt.Sprintf("type Zq%d {", n), "type Zq { a: }", "\"unterminated"}).Draw(t, lab+"sbf")
 		case "second-extension-fails":
 			// a first extension applies, a later one in the same document fails
 			valid += fmt.Sprintf("type ZqS%d { a: Int }\nextend type ZqS%d { b: Int }\n", n, n)
